@@ -2211,7 +2211,25 @@ class Summaries:
             path, c = coll_at(ctx, r, 'map')
             return StructV('Entry', {'map': r, 'key': k})
 
-        @regx(r"^std::collections::hash_map::Entry::<'a, K, V, A>::(or_insert|or_insert_with|or_default)$")
+        def default_value(ctx, st, ty):
+            """[(state, value)] of `<ty as Default>::default()`"""
+            head, _a = split_generic(ty)
+            kind = {'std::vec::Vec': 'vec', 'std::collections::HashSet': 'set', 'std::collections::HashMap': 'map',
+                    'std::collections::BTreeMap': 'map'}.get(head)
+            if kind is not None:
+                return [(st, CollV(kind, ty, next(_c), length=NumV(None, 0, 'usize'), known=(), prov=('new', ctx.fr.func if ctx.fr else None)))]
+            if is_str(ty):
+                return [(st, StrV(''))]
+            if ty == 'bool':
+                return [(st, BoolV(False))]
+            if ty in INT_RANGES:
+                return [(st, NumV(None, 0, ty))]
+            impl = '<%s as std::default::Default>::default' % ty
+            if impl in eng.prog.bodies:
+                return eng.exec_body(st, impl, [], ctx.depth + 1)
+            return [(st, eng.mk_default(st, ty))]
+
+        @regx(r"^std::collections::hash_map::Entry::<'a, K, V(, A)?>::(or_insert|or_insert_with|or_default)$")
         def _(ctx):
             e = ctx.args[0]
             r = e.fields['map']
@@ -2223,7 +2241,7 @@ class Summaries:
             elif ctx.callee.endswith('or_insert_with'):
                 results = eng.call_value(ctx.st, ctx.args[1], [], ctx.depth, ctx.fr, ctx.bi)
             else:
-                results = [(ctx.st, eng.mk_default(ctx.st, elem_type(c.ty, 'map')))]
+                results = default_value(ctx, ctx.st, elem_type(c.ty, 'map'))
             out = []
             for (s, dv) in results:
                 c2 = type(ctx)(ctx.eng, s, ctx.fr, ctx.bi, ctx.t, ctx.fn, ctx.callee, ctx.args, ctx.depth)
